@@ -24,6 +24,7 @@ import (
 	abci "github.com/cometbft/cometbft/abci/types"
 	"github.com/cosmos/cosmos-sdk/crypto/keys/secp256k1"
 	cryptotypes "github.com/cosmos/cosmos-sdk/crypto/types"
+	storetypes "github.com/cosmos/cosmos-sdk/store/types"
 	"github.com/cosmos/cosmos-sdk/testutil/sims"
 	sdk "github.com/cosmos/cosmos-sdk/types"
 	"github.com/cosmos/cosmos-sdk/x/authz"
@@ -257,9 +258,18 @@ func (w *c16World) deliver(msgs []sdk.Msg, signers []int) abci.ResponseDeliverTx
 	return c.App.DeliverTx(abci.RequestDeliverTx{Tx: bz})
 }
 
+func (w *c16World) storeKey(name string) storetypes.StoreKey {
+	for _, k := range w.c.App.GetStoreKeys() {
+		if k.Name() == name {
+			return k
+		}
+	}
+	panic("no store key " + name)
+}
+
 func (w *c16World) digest(store string, prefix []byte) [32]byte {
 	ctx := w.c.Ctx()
-	st := ctx.KVStore(w.c.App.GetKey(store))
+	st := ctx.KVStore(w.storeKey(store))
 	var it sdk.Iterator
 	if prefix == nil {
 		it = st.Iterator(nil, nil)
